@@ -9,7 +9,7 @@ THEOREMS = ["GrpcProofs.C25." + t for t in (
     "semaphore_running_le_n", "semaphore_counter", "semaphore_no_lost_release", "semaphore_no_stale_token",
     "semaphore_release_never_blocks", "semaphore_acquire_iff_free",
     "handlers_le_quota", "gracefulStop_returns_after_all_handlers", "accepted_before_completes",
-    "none_accepted_after", "stop_cancels_all")]
+    "none_accepted_after", "gracefulStop_drains_every_connection", "final_goaway_never_dispatches", "stop_cancels_all")]
 DESIGN_REF = "DESIGN.md section 8, C25"
 TECHNIQUE = ("Lean 4: (a) interleaving model of atomicSemaphore (one rule per atomic Add / channel operation, one sequential acquirer, "
              "any number of releasers by counting abstraction) with an inductive invariant proved per rule by omega; (b) event-level "
@@ -22,10 +22,14 @@ LEVEL_TEXT = ("Machine-checked proof that under every interleaving of the semaph
               "delivery is enabled (no lost release), no stale token exists, release never blocks; and that for every sequence of "
               "dial/start/cancel/finish/GracefulStop/Stop events no connection runs more than cap handlers, a pending GracefulStop "
               "returns only when no handler runs, a live handler's status is what its client gets, nothing started after a stop call "
-              "is ever sent, and Stop leaves every sent RPC with a cancelled context and a non-OK (or earlier) result. Both models "
+              "is ever sent by a grpc-go client, a stream that any peer opens on a connection whose final GOAWAY was written never "
+              "gets a handler, and Stop leaves every sent RPC with a cancelled context and a non-OK (or earlier) result. Both models "
               "are diffed against the real code on every run.")
 LEVEL_NOTE = ("Readings: 'no RPC is accepted afterwards' = after the stop call has reached quiescence (the GOAWAY handshake has completed: "
-              "in the tie every op is followed by synctest.Wait); streams started before are accepted and complete. 'handlers run at once' "
+              "in the tie every op is followed by synctest.Wait); streams started before are accepted and complete. The clause is checked "
+              "both for cooperating grpc-go clients (they stop sending: none_accepted_after) and for a hand-written HTTP/2 peer that acks "
+              "the GOAWAY ping but ignores GOAWAY and keeps opening streams (the server must ignore them: final_goaway_never_dispatches; "
+              "the model keeps a per-connection `draining` flag = http2Server.state draining). 'handlers run at once' "
               "counts handler goroutines between entry and return, INCLUDING handlers whose stream the client has cancelled (that is the "
               "case the semaphore exists for: the transport already refuses streams beyond MAX_CONCURRENT_STREAMS). Semaphore theorems are "
               "for ONE sequential acquirer (the code's documented use: the transport reader calls the stream callback synchronously). "
@@ -42,7 +46,8 @@ RULE = ("s_sema: random legal schedules of the acquirer and releasers for cap 0.
         "scenarios (1-3 connections, MaxConcurrentStreams 1..4, with/without WaitForHandlers, with NumStreamWorkers 0/1/2/8 so that "
         "handlers are dispatched both to fresh goroutines and to busy/idle pooled workers) of dial/start/cancel/finish with 0-2 stop "
         "calls (GracefulStop, Stop, GracefulStop then Stop), biased to client cancellations so that handler slots are held by "
-        "cancelled streams and new streams park in the quota; every handler is finally told to return. Non-trivial: a case with at "
+        "cancelled streams and new streams park in the quota; in 40% of the scenarios one connection is a hand-written HTTP/2 peer "
+        "that ignores GOAWAY and keeps opening streams after GracefulStop (they must never reach a handler); every handler is finally told to return. Non-trivial: a case with at "
         "least one blocked acquire (s_sema) / a stop call or a cancelled RPC (s_serverstop).")
 
 
@@ -141,11 +146,27 @@ class Sim:
             self.send(c, k["waiting"].pop(0))
 
     def dial(self, c):
-        self.conns[c] = dict(usable=self.phase == "serving", fifo=[], blocked=None, cli_active=0, waiting=[])
+        self.conns[c] = dict(usable=self.phase == "serving", fifo=[], blocked=None, cli_active=0, waiting=[], raw=False,
+                             alive=self.phase == "serving")
+
+    def rawdial(self, c):
+        self.conns[c] = dict(usable=False, fifo=[], blocked=None, cli_active=0, waiting=[], raw=True,
+                             alive=self.phase == "serving")
+
+    def rawstart(self, c, r):
+        """a peer that ignores GOAWAY opens a stream: dispatched while serving, ignored once draining"""
+        k = self.conns[c]
+        self.rpcs[r] = dict(conn=c, sent=False, cli=None, running=False, cancelled=False, raw=True)
+        if not k["alive"]:
+            self.rpcs[r]["cli"] = 14
+        elif self.phase == "serving":
+            self.send(c, r)
+        else:
+            self.rpcs[r]["sent"] = True
 
     def start(self, c, r):
         k = self.conns[c]
-        self.rpcs[r] = dict(conn=c, sent=False, cli=None, running=False, cancelled=False)
+        self.rpcs[r] = dict(conn=c, sent=False, cli=None, running=False, cancelled=False, raw=False)
         if not k["usable"]:
             self.rpcs[r]["cli"] = 14
         elif k["cli_active"] >= self.cap:
@@ -222,13 +243,22 @@ def stop_case(rng, n_ops, tag):
     nrpc = 0
     stop_budget = rng.choice([0, 1, 1, 2])
     p_cancel = rng.choice([0.05, 0.25, 0.5])
+    use_raw = rng.random() < 0.4
     for _ in range(n_ops):
         ch = []
         if nconn < 3:
             ch += ["dial"] * (3 if nconn == 0 else 1)
-        if nconn:
+        if any(not v["raw"] for v in sim.conns.values()):
             ch += ["start"] * 6
-        live = [r for r, x in sim.rpcs.items() if x["cli"] is None]
+        live = [r for r, x in sim.rpcs.items() if x["cli"] is None and not x["raw"]]
+        raws = [c for c, k in sim.conns.items() if k["raw"]]
+        if not raws and nconn < 3 and use_raw:
+            ch += ["rawdial"] * 2
+        # a raw peer may open streams while serving (within the limit: it has no client-side quota) and,
+        # ignoring GOAWAY, after GracefulStop was called
+        raw_ok = [c for c in raws if sim.phase == "graceful" or (sim.phase == "serving" and sim.conns[c]["cli_active"] < cap)]
+        if raw_ok:
+            ch += ["rawstart"] * (6 if sim.phase == "graceful" else 3)
         if live:
             ch += ["cancel"] * max(1, int(12 * p_cancel))
         if sim.run:
@@ -245,8 +275,20 @@ def stop_case(rng, n_ops, tag):
             nconn += 1
             sim.dial(nconn)
             ops.append("dial c%d" % nconn)
+        elif c == "rawdial":
+            nconn += 1
+            sim.rawdial(nconn)
+            ops.append("rawdial p%d" % nconn)
+        elif c == "rawstart":
+            conn = rng.choice(raw_ok)
+            nrpc += 1
+            sim.rawstart(conn, nrpc)
+            ops.append("rawstart p%d r%d" % (conn, nrpc))
         elif c == "start":
-            conn = rng.randrange(1, nconn + 1)
+            real = [k for k, v in sim.conns.items() if not v["raw"]]
+            if not real:
+                continue
+            conn = rng.choice(real)
             k = sim.conns[conn]
             if k["usable"] and k["cli_active"] >= cap and (k["waiting"] or rng.random() < 0.7):
                 continue            # at most one RPC waits for client-side stream quota
@@ -289,8 +331,56 @@ def gen_sema(rng, tier):
         yield sema_case(rng, cap, rng.choice([12, 30, 60]), rng.choice([1, 2, 4]))
 
 
+def raw_after_goaway_case(rng, tag):
+    """directed: a peer that ignores GOAWAY has k streams in flight when GracefulStop is called (so its
+    connection outlives the final GOAWAY), then opens more streams; optionally a grpc-go client next to it"""
+    cap = rng.choice([1, 2, 3, 4])
+    sim = Sim(cap)
+    workers = rng.choice([0, 0, 2])
+    ops = ["serve %d%s%s" % (cap, " wait" if rng.random() < 0.3 else "", " w%d" % workers if workers else "")]
+    n = 0
+
+    def rid():
+        nonlocal n
+        n += 1
+        return n
+    if rng.random() < 0.5:
+        sim.dial(2)
+        ops.append("dial c2")
+        r = rid()
+        sim.start(2, r)
+        ops.append("start c2 r%d" % r)
+    sim.rawdial(1)
+    ops.append("rawdial p1")
+    for _ in range(rng.randint(1, cap)):
+        r = rid()
+        sim.rawstart(1, r)
+        ops.append("rawstart p1 r%d" % r)
+    sim.gstop()
+    ops.append("gstop")
+    for _ in range(rng.randint(1, 3)):
+        r = rid()
+        sim.rawstart(1, r)
+        ops.append("rawstart p1 r%d" % r)
+        if sim.run and rng.random() < 0.4:
+            f = rng.choice(sim.run)
+            code = rng.choice(CODES)
+            sim.finish(f, code)
+            ops.append("finish r%d %d" % (f, code))
+    while sim.run:
+        f = sim.run[0]
+        sim.finish(f, 0)
+        ops.append("finish r%d 0" % f)
+    r = rid()
+    sim.rawstart(1, r)
+    ops.append("rawstart p1 r%d" % r)
+    return Case("s_serverstop", ops, tag)
+
+
 def gen(rng, tier):
     yield from gen_sema(rng, tier)
+    for i in range({"quick": 25, "thorough": 400, "search": 200}[tier]):
+        yield raw_after_goaway_case(rng, "rawgoaway-%d" % i)
     k = {"quick": 250, "thorough": 5000, "search": 2500}[tier]
     for i in range(k):
         yield stop_case(rng, rng.choice([8, 14, 22, 30]), "stop-%d" % i)
